@@ -454,7 +454,7 @@ class ppc_mnemo_metaclass(type):
         print(txt)
         t = ppc_mn.pre_parse_mnemo(txt)
         name = t.pop()
-        ret = filter(lambda x:x.check_mnemo(name), tab_mn)
+        ret = list(filter(lambda x:x.check_mnemo(name), tab_mn))
         if len(ret)!=1:
             raise ValueError('parse name err %s'%str(ret))
         cls = ret[0]
